@@ -11,7 +11,7 @@ Address identity follows: the body is a place expression of exactly that field.
 """
 from ..report import Report
 from ..syn import es, pat_s, ty_s
-from ..terms import term_s, subterms, analyse_iter
+from ..terms import match_arms, term_s, subterms, analyse_iter
 from ..summ import (Summ, access, block_stmts, marker_stmts, marker_of_pat, marker_of_expr, marker_of_type, atoms_after_loop, strip_ref_gen)
 from ..facts import Facts, atom_s
 from ..genast import is_marker, marker_name
@@ -347,16 +347,16 @@ def check_enum(cx, fn, rep, facts, mutable):
 
 def binder_of_selection(S, bt):
     """bt = proj(0, match(proj(1,SEL).ident, ('Some(ident)', tuple(some_of(..ident), false)), ('None', tuple(format_ident('_{}', proj(0,SEL)), true))))"""
-    if not (isinstance(bt, tuple) and bt[0] == 'proj' and bt[1] == 0 and isinstance(bt[2], tuple) and bt[2][0] == 'match'):
+    if not (isinstance(bt, tuple) and bt[0] == 'proj' and bt[1] == 0 and match_arms(bt[2]) is not None):
         return None
     m = bt[2]
-    scrut = m[1]
+    scrut, m_arms = match_arms(m)
     if not (isinstance(scrut, tuple) and scrut[0] == 'field' and scrut[2] == 'ident' and isinstance(scrut[1], tuple) and scrut[1][0] == 'proj' and scrut[1][1] == 1):
         return None
     sel = scrut[1][2]
     if parse_selection(S, sel) is None:
         return None
-    arms = dict((p, v) for p, v in m[2:])
+    arms = dict((p, v) for p, v in m_arms)
     some = [v for p, v in arms.items() if p.startswith('Some(')]
     none = [v for p, v in arms.items() if p == 'None']
     if len(some) != 1 or len(none) != 1:
@@ -443,13 +443,18 @@ def check_dereference_helper(cx, rep):
             rep.broken.append('common::type::%s not found' % name)
             continue
         f = fs[0]
-        fw = cx.fw(f)
-        from ..syn import es as _es
-        txt = _es(f.block).replace(' ', '')
-        if name == 'dereference':
-            ok = txt == '{ifletType::Reference(ty)=ty{dereference(ty.elem.as_ref())}else{ty}}'
-        else:
-            ok = txt == '{ifletType::Reference(ty)=ty{(dereference(ty.elem.as_ref()),true)}else{(ty,false)}}'
+        from .helpers import fn_term, P
+        t = fn_term(cx, f)
+        DEREF = ('crate::common::type::dereference', 'crate::common::r#type::dereference', 'dereference')
+        inner = ('field', ('payload', 'Type::Reference', 0, P(0)), 'elem')
+        def rec(x):
+            return isinstance(x, tuple) and len(x) == 3 and x[0] == 'call' and x[1] in DEREF and x[2] == inner
+        ok = isinstance(t, tuple) and t[0] == 'iflet' and t[1] in ('Type::Reference(_)', 'syn::Type::Reference(_)') and t[2] == P(0)
+        if ok and name == 'dereference':
+            ok = rec(t[3]) and t[4] == P(0)
+        elif ok:
+            ok = (isinstance(t[3], tuple) and t[3][0] == 'tuple' and len(t[3]) == 3 and rec(t[3][1]) and t[3][2] == ('lit', 'Bool', True)
+                  and t[4] == ('tuple', P(0), ('lit', 'Bool', False)))
         if ok:
             rep.ok('SUM-DEREF', f.qname + '|strips all references', {'helper': f.qname})
         else:
